@@ -63,6 +63,13 @@ theorem C12_enable_path_pinned :
     ∧ (Jap.Gen.enablePathByType.filter (fun row => row.2.2.1 || row.2.2.2)).map (·.1)
         = ["Class", "Optional[Class]", "Callable[[int], Class]"] := by decide
 
+/-- `effDefault`'s rule "no signature default + `Optional[...]` ⇒ default `None`" is the first `is_optional` test of
+    `_add_signature_parameter`, and that test looks at the bare annotation: Optional of ANYTHING (`Optional[int]`,
+    `Optional[List[int]]`, `Optional[Dict[str, int]]`, `Optional[Tuple[...]]`, `Optional[Literal[...]]`), not only of the
+    reference types; the second test (wrapping a non-Optional annotation whose default is None) is the one with `object` -/
+theorem C12_optional_rule_pinned :
+    Jap.Gen.isOptionalCalls = ["is_optional(annotation)", "is_optional(annotation, object)"] := by decide
+
 /-! ## functions -/
 
 /-- exactly one call, with every parameter bound to the given value or else the signature default; the value
